@@ -25,6 +25,16 @@ open Proofs.CEval (FromParser Graceful)
 theorem pack_never_raises (τ : Ty) (v : Int) : ∃ bs, pack τ v = .ok bs :=
   Proofs.CEval.pack_total τ v
 
+/-- the same for every type `CContext.pack` accepts besides floats: integer basic types, enum types, pointers -/
+theorem pack_never_raises_any_type (t : PackTy) (v : Int) : ∃ bs, packAny t v = .ok bs :=
+  Proofs.CEval.packAny_total t v
+
+/-- `enum E x = e;` and `T *p = (T *)e;` at file scope, for every parser tree: bytes or a diagnostic -/
+theorem enum_and_pointer_initializer_no_internal_error (s : Src) (h : FromParser s) :
+    isInternal (initializerEnum s) = false ∧ isInternal (initializerPtr s) = false :=
+  ⟨Proofs.CEval.graceful_not_internal (Proofs.CEval.initializerAny_graceful .enum s h),
+   Proofs.CEval.graceful_not_internal (Proofs.CEval.initializerAny_graceful .ptr s h)⟩
+
 /-- A file-scope initialiser `T x = e;` for any integer type and ANY expression tree the parser can produce
     (including undefined ones: overflow, `/ 0`, negative or huge shift counts, constants without a type)
     ends with bytes or a diagnostic, never with an internal error. -/
